@@ -78,6 +78,7 @@ type lexer struct {
 	comments []*ast.Comment
 	cmdSubst rune
 	closed   bool
+	tokLine  int
 	token    chan ast.Node
 	done     chan struct{}
 
@@ -899,7 +900,16 @@ Scan:
 	return tok
 }
 
-func (l *lexer) scanRawToken() int {
+func (l *lexer) scanRawToken() (tok int) {
+	defer func() {
+		// remember the line of the token for a comment behind it
+		if tok > 0 && tok != '\n' {
+			l.tokLine = l.line
+		} else {
+			l.tokLine = 0
+		}
+	}()
+
 	for {
 		r, err := l.read()
 		if err != nil {
@@ -989,7 +999,14 @@ func (l *lexer) scanRawToken() int {
 			if l.lit(); len(l.word) != 0 {
 				return WORD
 			}
-			if !l.linebreak() {
+			if l.tokLine == l.line && len(l.aliases) == 0 {
+				// a comment behind a token of the same line ends
+				// before the <newline>, which is a token of its own
+				if !l.trailingComment() {
+					return -1
+				}
+				l.mark(0)
+			} else if !l.linebreak() {
 				return -1
 			}
 		default:
@@ -1120,6 +1137,9 @@ func (l *lexer) scanQuote(r rune) bool {
 				},
 			}
 			l.word = append(l.word, q)
+		} else if l.tokLine != 0 {
+			// the line is continued
+			l.tokLine = l.line
 		}
 	case '\'':
 		// single-quotes
@@ -1580,6 +1600,26 @@ func (l *lexer) linebreak() bool {
 			}
 			l.b.WriteRune(r)
 		}
+	}
+}
+
+// trailingComment skips a comment up to, but not including, the
+// <newline> which ends it.
+func (l *lexer) trailingComment() bool {
+	l.read()
+	l.mark(-1)
+	for {
+		r, err := l.read()
+		if err != nil {
+			l.comment()
+			return false
+		}
+		if r == '\n' || r == '`' && l.cmdSubst == '`' {
+			l.unread()
+			l.comment()
+			return true
+		}
+		l.b.WriteRune(r)
 	}
 }
 
